@@ -1,9 +1,10 @@
 package props
 
 import (
-	"go/types"
 	"astverif/layout"
 	"astverif/lin"
+	"astverif/tables"
+	"go/types"
 
 	"golang.org/x/tools/go/ssa"
 )
@@ -61,6 +62,11 @@ func c13(c *Ctx) {
 		return []int{0, 1, 2}
 	}
 	ckp.A3(r, c13PMT(c))
+	ckp.A3(r, c13SpecPairs(c))
+	// which table ids are parsed, have a syntax header / CRC, are delivered (truth tables over all 256 ids)
+	before := len(r.Obls)
+	tables.T1(c.P, r)
+	r.Floor("T1", "truth-table obligations", len(r.Obls)-before, 20)
 	for _, d := range ckp.IP.Diag {
 		r.Unknown("A0", "diag/pmt/"+d, "", d)
 	}
